@@ -348,6 +348,12 @@ impl<'a> UserModel<'a> {
         Ok(())
     }
 
+    /// Verification hook: lengths of the (undo, redo) stacks.
+    #[cfg(feature = "verif")]
+    pub fn verif_history_len(&self) -> (usize, usize) {
+        (self.history.undo_stack.len(), self.history.redo_stack.len())
+    }
+
     /// Returns true if there are items to be undone
     pub fn can_undo(&self) -> bool {
         !self.history.undo_stack.is_empty()
